@@ -130,6 +130,12 @@ func Supervise(p *Prop, tier Tier) int {
 	}()
 	os.Setenv("VERIF_TMP", filepath.Join(runDir, "scratch"))
 
+	// witnesses of earlier runs with the same (seed, tier) are obsolete
+	if old, _ := filepath.Glob(filepath.Join(VerifRoot(), "replays", p.ID, fmt.Sprintf("*seed%d-%s-*.json", seed, tier))); len(old) > 0 {
+		for _, f := range old {
+			os.Remove(f)
+		}
+	}
 	sum := &Summary{Prop: p, Tier: tier, Seed: seed, RunDir: runDir}
 	variants := append([]string{"default"}, p.Variants...)
 	maxW := runtime.NumCPU()
@@ -146,6 +152,11 @@ func Supervise(p *Prop, tier Tier) int {
 		n := p.Cases(variant, tier)
 		if n <= 0 {
 			continue
+		}
+		if v := os.Getenv("VERIF_CASES"); v != "" { // development aid only
+			if m, err := strconv.Atoi(v); err == nil && m > 0 && m < n {
+				n = m
+			}
 		}
 		if _, err := os.Stat(binFor(variant)); err != nil {
 			harnessErrs = append(harnessErrs, "missing binary "+binFor(variant))
@@ -530,6 +541,13 @@ func finish(s *Summary, harnessErrs []string, wall time.Duration) int {
 		}
 		exit = 1
 	}
+	kindCount := map[string]int{}
+	for _, f := range fresh {
+		kindCount[f.v[0].Kind]++
+	}
+	if len(kindCount) > 0 {
+		fmt.Printf("violation kinds: %v\n", kindCount)
+	}
 	for _, k := range knownList {
 		fmt.Printf("KNOWN-FINDING: property=%s %s [kind=%s observed_cases=%d]\n", p.ID, k.Description, k.Kind, knownSeen[k.Kind])
 	}
@@ -563,7 +581,16 @@ func finish(s *Summary, harnessErrs []string, wall time.Duration) int {
 		fmt.Printf("note: inconclusive %s\n", r)
 	}
 
+	var slow []string
+	{
+		rs := append([]Result(nil), s.Results...)
+		sort.Slice(rs, func(i, j int) bool { return rs[i].WallMs > rs[j].WallMs })
+		for i := 0; i < len(rs) && i < 5; i++ {
+			slow = append(slow, fmt.Sprintf("%d/%s:%dms", rs[i].Idx, rs[i].Variant, rs[i].WallMs))
+		}
+	}
 	cov := map[string]any{
+		"slowest_cases":       slow,
 		"evaluations":         evals,
 		"distinct_nontrivial": len(distinct),
 		"rule":                p.Rule,
